@@ -18,3 +18,15 @@ pub assume_specification[ str::trim ](s: &str) -> (r: &str)
 pub assume_specification<T: Clone>[ <[T]>::to_vec ](s: &[T]) -> (r: Vec<T>)
     ensures r@ == s@,
 ;
+/// <[T]>::partition_point (std docs): an index in 0..=len; if the verdicts the predicate admits split the slice into a
+/// true prefix and a false suffix, it is the length of the prefix (otherwise std leaves the result unspecified)
+pub open spec fn verdicts_partitioned(keep: Seq<bool>, r: int) -> bool {
+    (forall|i: int| 0 <= i < r ==> #[trigger] keep[i]) && (forall|i: int| r <= i < keep.len() ==> !#[trigger] keep[i])
+}
+pub assume_specification<T, P: FnMut(&T) -> bool>[ <[T]>::partition_point ](s: &[T], pred: P) -> (r: usize)
+    requires forall|i: int| 0 <= i < s@.len() ==> #[trigger] pred.requires((&s@[i],)),
+    ensures
+        r <= s@.len(),
+        exists|keep: Seq<bool>| keep.len() == s@.len()
+            && (forall|i: int| 0 <= i < s@.len() ==> pred.ensures((&s@[i],), #[trigger] keep[i]))
+            && ((exists|p: int| 0 <= p <= keep.len() && #[trigger] verdicts_partitioned(keep, p)) ==> verdicts_partitioned(keep, r as int));
